@@ -21,6 +21,22 @@ UNIT = 0.5            # Den = 2, tick 1.0
 P0 = 40
 SIM_SESS = [dict(steps=2, place=True, exe=False, maxN=2, maxH=1, rate=1), dict(steps=3, place=True, exe=True, maxN=3, maxH=2, rate=1),
             dict(steps=1, place=False, exe=True, maxN=1, maxH=1, rate=2), dict(steps=2, place=True, exe=True, maxN=2, maxH=1, rate=2)]
+HALT = None
+# the two simulation configurations (must mirror spec/MC_PamsSystem_sim.tla and spec/MC_PamsSystem_simh.tla)
+PROFILES = {
+    "plain": {"module": "MC_PamsSystem_sim", "sess": SIM_SESS, "halt": None},
+    "halt": {"module": "MC_PamsSystem_simh",
+             "sess": [dict(steps=3, place=True, exe=True, maxN=3, maxH=1, rate=1), dict(steps=4, place=True, exe=True, maxN=2, maxH=2, rate=2),
+                      dict(steps=2, place=True, exe=False, maxN=2, maxH=1, rate=1), dict(steps=4, place=True, exe=True, maxN=3, maxH=1, rate=1)],
+             "halt": {"targets": ["M0", "M1"], "rate": 1.0 / 16, "len": 2}},
+}
+
+
+def use_profile(name):
+    global SIM_SESS, HALT
+    SIM_SESS = PROFILES[name]["sess"]
+    HALT = PROFILES[name]["halt"]
+    return PROFILES[name]["module"]
 
 last_stats = {"behaviours": 0, "steps_compared": 0, "state_mismatches": 0, "first_mismatch": None, "actions": 0, "orders": 0}
 
@@ -90,7 +106,10 @@ def make_program(queue):
             for o in mine:
                 if o.market_id == m and o.order_id == oid:
                     return [Cancel(order=o)]
-            raise MachineryError("replay: agent %d has no order %d on market %d to cancel" % (agent.agent_id, oid, m))
+            # the implementation has left the behaviour TLC chose (the order this agent is to cancel was never accepted under
+            # that id): nothing to cancel; the state comparison reports the mismatch, the trace specifications judge the run
+            last_stats["offschedule"] = last_stats.get("offschedule", 0) + 1
+            return []
         _, m, buy, mo, px, vol, ttl = op
         o = Order(agent_id=agent.agent_id, market_id=m - 1, is_buy=bool(buy), kind=MARKET_ORDER if mo else LIMIT_ORDER,
                   volume=int(vol), price=None if mo else px * UNIT, ttl=(int(ttl) or None))
@@ -110,6 +129,10 @@ def config():
         cfg["simulation"]["sessions"].append({"sessionName": i, "iterationSteps": s["steps"], "withOrderPlacement": s["place"],
                                               "withOrderExecution": s["exe"], "withPrint": False, "maxNormalOrders": s["maxN"],
                                               "maxHighFrequencyOrders": s["maxH"], "highFrequencySubmitRate": RATE[s["rate"]]})
+    if HALT:
+        cfg["HR"] = {"class": "TradingHaltRule", "targetMarkets": list(HALT["targets"]), "triggerChangeRate": HALT["rate"],
+                     "haltingTimeLength": HALT["len"]}
+        cfg["simulation"]["sessions"][0]["events"] = ["HR"]
     return cfg
 
 
@@ -152,6 +175,7 @@ def replay_behaviour(text, seed):
     finally:
         probes.RecLogger = old
     last_stats["actions"] += len(acts)
+    last_stats["halts"] = last_stats.get("halts", 0) + int(states[-1].get("hcnt", 0))
     model_steps = [states[i] for i, (nm, _) in enumerate(acts) if nm == "StepEnd"]
     impl_hold = [e["hold"] for e in run["ev"] if e["k"] == "stepE" and e["m"] == NM - 1]
     mism = None
@@ -181,28 +205,32 @@ def replay_behaviour(text, seed):
     return run, mism
 
 
-def runs(tier, seed):
+def runs(tier, seed, profiles=("plain", "halt")):
     num = 8 if tier == "quick" else 400
-    last_stats.update(behaviours=0, steps_compared=0, state_mismatches=0, first_mismatch=None, actions=0, orders=0)
-    d = os.path.join(WORK, "simsys-%d" % os.getpid())
-    shutil.rmtree(d, ignore_errors=True)
-    os.makedirs(d)
+    last_stats.update(behaviours=0, steps_compared=0, state_mismatches=0, first_mismatch=None, actions=0, orders=0, halts=0)
     out = []
-    try:
-        r = tlc.run_tlc("MC_PamsSystem_sim", "MC_PamsSystem_sim.cfg", workers=1, timeout=1800, simulate="file=%s/tr,num=%d" % (d, num),
-                        depth=500, seed=sub_seed(seed, "simsys") % (2 ** 31), tag="sim-system")
-        if r.violation or (r.error and "Finished in" not in r.out):
-            raise MachineryError("simulation of PamsSystem failed: %s" % (r.violation or r.error))
-        for f in sorted(glob.glob(os.path.join(d, "tr_*"))):
-            run, mism = replay_behaviour(open(f).read(), sub_seed(seed, f) % (2 ** 31))
-            if run is None:
-                continue
-            out.append(run)
-            last_stats["behaviours"] += 1
-            if mism is not None:
-                last_stats["state_mismatches"] += 1
-                if last_stats["first_mismatch"] is None:
-                    last_stats["first_mismatch"] = mism
-    finally:
+    for prof in profiles:
+        mod = use_profile(prof)
+        d = os.path.join(WORK, "simsys-%d-%s" % (os.getpid(), prof))
         shutil.rmtree(d, ignore_errors=True)
+        os.makedirs(d)
+        try:
+            r = tlc.run_tlc(mod, mod + ".cfg", workers=1, timeout=1800, simulate="file=%s/tr,num=%d" % (d, num),
+                            depth=700, seed=sub_seed(seed, "simsys", prof) % (2 ** 31), tag="sim-system-" + prof)
+            if r.violation or (r.error and "Finished in" not in r.out):
+                raise MachineryError("simulation of PamsSystem (%s) failed: %s" % (prof, r.violation or r.error))
+            for f in sorted(glob.glob(os.path.join(d, "tr_*"))):
+                run, mism = replay_behaviour(open(f).read(), sub_seed(seed, f) % (2 ** 31))
+                if run is None:
+                    continue
+                run["src"] = "tlc-system" if prof == "plain" else "tlc-system-halt"
+                out.append(run)
+                last_stats["behaviours"] += 1
+                if mism is not None:
+                    last_stats["state_mismatches"] += 1
+                    if last_stats["first_mismatch"] is None:
+                        last_stats["first_mismatch"] = mism
+        finally:
+            shutil.rmtree(d, ignore_errors=True)
+    use_profile("plain")
     return out
